@@ -239,7 +239,7 @@ def size(t) -> int:
 
 def _compound(e) -> bool:
     """Expressions an SQL generator renders inside their own parentheses / behind NOT."""
-    return e[0] in ("arith", "neg", "cmp", "not", "in") or (e[0] == "call" and e[1] in ("indexof", "concat"))
+    return e[0] in ("arith", "neg", "cmp", "not", "in") or (e[0] == "call" and e[1] in ("indexof", "concat") + STR_FUNCS_BOOL)
 
 
 def _lookup_left(e):
